@@ -26,11 +26,103 @@ def s1_group(src, nmembers, times, max_faults, assignor):
     GO.check_c05(src, run, res)
 
 
+def u1_distribution(src, assignor, max_members, ntopics, max_parts):
+    """One generation without the network: the leader's real `_perform_assignment` on the members'
+    JoinGroup metadata (every non-empty subscription per member, every partition count), the bytes it
+    would put into SyncGroup, and every member's adoption of its bytes through the real
+    `SubscriptionState.assign_from_subscribed` (what `_on_join_complete` does first)."""
+    import asyncio
+
+    loop = asyncio.new_event_loop()
+    try:
+        loop.run_until_complete(_u1_distribution(src, loop, assignor, max_members, ntopics, max_parts))
+    finally:
+        asyncio.set_event_loop(None)
+        loop.close()
+
+
+async def _u1_distribution(src, loop, assignor, max_members, ntopics, max_parts):
+    import types
+
+    from aiokafka.coordinator.protocol import ConsumerProtocol
+    from aiokafka.structs import TopicPartition
+
+    from . import assignsim as AS
+    parts, subs = AS.choose_layout(src, max_members, ntopics, max_parts, allow_no_metadata=False)
+    acls = AS.ASSIGNORS[assignor]
+    leader_sub = SubscriptionState(loop=loop)
+    _real_sub = SubscriptionState.subscribe
+
+    def _subscribe(state, topics):
+        _real_sub(state, topics)
+    _subscribe(leader_sub, set(subs["m0"]))
+    gc = GroupCoordinator.__new__(GroupCoordinator)
+    gc._assignors = [acls]
+    gc._subscription = leader_sub
+    gc._cluster = AS.make_cluster(parts)
+    gc.group_id = "g"
+    gc._metadata_snapshot = {}
+    gc._group_subscription = None
+
+    async def _nowait():
+        return None
+    gc._client = types.SimpleNamespace(set_topics=lambda topics: None, _maybe_wait_metadata=_nowait, cluster=gc._cluster)
+    members = [(m, acls.metadata(set(subs[m])).encode()) for m in subs]
+    response = types.SimpleNamespace(group_protocol=acls.name, members=members, API_VERSION=2)
+    try:
+        try:
+            assignments = await gc._perform_assignment(response)
+        except (KeyError, ValueError, IndexError, AssertionError, TypeError, StopIteration, RuntimeError) as e:
+            src.check(False, f"the leader's assignment step raised {type(e).__name__}: {e}", parts=parts, subs=subs)
+            return
+    finally:
+        pass
+    sent ={m: (a.encode() if not isinstance(a, bytes) else a) for m, a in assignments.items()}
+    owners = {}
+    for m in subs:
+        raw = sent.get(m)
+        src.check(raw is not None, f"member {m} gets no SyncGroup assignment entry", parts=parts, subs=subs)
+        if raw is None:
+            continue
+        tps = ConsumerProtocol.ASSIGNMENT.decode(raw).partitions()
+        for tp in tps:
+            ok = tp.topic in subs[m]
+            if src.twin and tp.partition == 0:
+                ok = not ok
+            src.check(ok, f"member {m} is sent {tuple(tp)} of a topic it did not subscribe to", parts=parts, subs=subs)
+            src.check(tp not in owners, f"{tuple(tp)} is sent to both {owners.get(tp)} and {m} in one generation", parts=parts, subs=subs)
+            owners[tp] = m
+        st = SubscriptionState(loop=loop)
+        _subscribe(st, set(subs[m]))
+        try:
+            st.assign_from_subscribed(tps)
+        except (ValueError, KeyError, AssertionError) as e:
+            src.check(False, f"member {m} cannot adopt the assignment it was sent: {type(e).__name__}: {e}", parts=parts, subs=subs)
+            continue
+        src.check(set(st.assigned_partitions()) == set(tps), f"member {m}: assignment() differs from what it was sent", parts=parts, subs=subs)
+    wanted = {TopicPartition(t, p) for m in subs for t in subs[m] for p in range(parts[t] or 0)}
+    src.check(set(owners) == wanted, "the distributed assignments do not cover exactly the subscribed partitions",
+              missing=sorted(map(tuple, wanted - set(owners)))[:4], extra=sorted(map(tuple, set(owners) - wanted))[:4], parts=parts, subs=subs)
+
+
 def harnesses(tier):
     q = tier == "quick"
+    us = []
+    for asg in ("range", "roundrobin", "sticky"):
+        mm, nt, mp = (4, 2, 3) if q else (4, 3, 3)
+        us.append(Harness(
+            name=f"U1_distribution_{asg}_{mm}m_{nt}t_{mp}p", fn=u1_distribution,
+            params={"assignor": asg, "max_members": mm, "ntopics": nt, "max_parts": mp},
+            functions=[GroupCoordinator._perform_assignment, SubscriptionState.assign_from_subscribed], shape="U",
+            symbolic_vars="finite-domain choices: member count, partitions per topic, every non-empty subscription per member",
+            bounds={"members": f"1..{mm}", "topics": nt, "partitions_per_topic": f"0..{mp}"},
+            stubs=["client.set_topics/_maybe_wait_metadata are no-ops; cluster metadata built from a MetadataResponse_v1"],
+            note="exhaustive enumeration of the layout space by the engine's DFS (no data-symbolic variable); members with "
+                 "different subscriptions, which the 2-member group runs of S1 do not reach",
+            max_seconds=300 if q else 1200, max_paths=2000000, twin_max_paths=2000))
     confs = [(2, [0.05, 0.3, 0.62], 0, "roundrobin"), (2, [0.3], 0, "range"), (2, [0.3], 0, "sticky"), (2, [0.3], 0, "rrsplit")] if q else \
         [(2, [0.05, 0.2, 0.3, 0.45, 0.62, 0.9], 1, "roundrobin"), (3, [0.05, 0.3, 0.62], 1, "range"), (3, [0.05, 0.3], 0, "sticky")]
-    hs = []
+    hs = list(us)
     for n, times, mf, asg in confs:
         hs.append(Harness(
             name=f"S1_group_{n}members_{len(times)}times_{mf}faults_{asg}", fn=s1_group,
